@@ -350,6 +350,19 @@ def texts_for(ctx):
         lines = text.split("\n")
         for i in range(min(14, len(lines))):
             out.append((("header-line-deleted", i, fmt), "\n".join(lines[:i] + lines[i + 1:]), None))
+    # micro documents: every one-line text over a small alphabet of record heads (with 0, 1, 2 final newlines), and two-line
+    # texts (all in thorough, a sample in quick) - a lone integer, a lone `cell` record ... are what single parsers mis-handle
+    micro = C.micro_documents()
+    one = [m for m in micro if m[0].startswith("1:")]
+    two = [m for m in micro if m[0].startswith("2:")]
+    for nm, t in one + (rng.sample(two, 60) if quick else two):
+        out.append((("micro", nm, None), t, None))
+    # CIF with a non-tabulated operation list whose loop is damaged (identity deleted / replaced, single operators)
+    sf = C.symop_faults()
+    keep = [x for x in sf if x[0].startswith(("symop_only", "symop_del"))]
+    rest = [x for x in sf if x not in keep]
+    for nm, t in keep + (rng.sample(rest, 20) if quick else rest):
+        out.append((("symop", nm, None), t, None))
     n_soup = 25 if quick else 400
     for i in range(n_soup):
         fmt, name, text = docs[rng.randrange(len(docs))]
